@@ -53,7 +53,10 @@ AfterGuards(e) ==
 
 StepViolations(e) ==
     IF e.ev \in UpgradeActs THEN
-        IF Granted(e, FactorOfAct[e.ev]) THEN Failed(GuardsOf(e) \cup AfterGuards(e))
+        IF Granted(e, FactorOfAct[e.ev])
+        THEN Failed(GuardsOf(e) \cup AfterGuards(e) \cup
+                    \* the session the response raises is the session of the identity the request was admitted as
+                    {<<"G_C05_IssuedForActor", e.out.set.u = Actor(CredOf(e))>>})
         ELSE IF e.happy /\ (\A g \in GuardsOf(e) : g[2]) /\ e.out.note = "" THEN {"G_C05_LegitWorks"} ELSE {}
     ELSE IF e.ev = "CliSend" THEN
         LET c == CredOf(e) IN
